@@ -469,10 +469,14 @@ def r6_9(ctx):
         n += 1
         m = method_name(tree.a)
         good = m == "str::starts_with" and has_read(tree.kids[0]) and is_fence(tree.kids[1]) and not [c for c in (method_name(x) for x in tree.kids[0].call_names()) if c.startswith("str::trim")]
+        if m in ("PartialEq::eq", "PartialEq::ne"):
+            why = ("the closing-fence test is an equality (`%s`): a line of *more* backticks than the opener no longer closes the block, so the block swallows the "
+                   "following tests up to the next exactly-equal fence or the end of the document" % tree.show()[:100])
+        else:
+            why = ("the closing-fence test `%s` is not in the accepted form `line.starts_with(<opening fence>)`: not analysable, so it cannot be established that every "
+                   "line starting with the opening fence closes the block" % tree.show()[:100])
         ctx.check(good, "closing-fence#%d" % n, f.loc(sb),
-                  "a code block ends at the first line that starts with the opening fence (longer closing fences close it too)",
-                  "the closing-fence test is `%s`: a line of *more* backticks than the opener no longer closes the block, so the block swallows the following "
-                  "tests up to the next exactly-equal fence or the end of the document" % tree.show()[:100])
+                  "a code block ends at the first line that starts with the opening fence (longer closing fences close it too)", why)
     ctx.check(n >= 2, "closing-fence-sites", f.where(), "%d closing-fence tests found (verbatim block and test block)" % n,
               "only %d closing-fence tests found in MarkdownIterator::next (2 confirmed by reading)" % n)
 
@@ -480,6 +484,11 @@ def r6_9(ctx):
 def r6_6(ctx):
     from . import c10
     c10.r10_6(ctx)
+
+
+def r6_10(ctx):
+    from . import c07
+    c07.line_parser_rules(ctx)
 
 
 def r6_8(ctx):
@@ -504,5 +513,6 @@ def run(ctx):
     ctx.run_rule("R6.5", "line counter pairing: exactly one line_index increment per consumed line; stored numbers are line_index-1 [E-STATE by segment enumeration]", r6_5, floor=3)
     ctx.run_rule("R6.6", "consumed-line conservation: each line read by the tokenizer is stored in exactly one token field or consumed as a delimiter on every path (shared with C10 R10.6) [E-STATE by dataflow]", r6_6, floor=4)
     ctx.run_rule("R6.7", "parse feeds every code line to add_testcase_body; end_testcase builds the TestCase from the parser state [E-FLOW]", r6_7, floor=7)
+    ctx.run_rule("R6.10", "line parser: `$ ` starts and `> ` continues a command (exact prefixes), body text stored unmodified, expectation / exit-code lines unmodified (shared with C07 R7.2) [E-FLOW]", r6_10, floor=4)
     ctx.run_rule("R6.9", "closing-fence predicate is a prefix test against the opener's fence (equality would reject longer closing fences) [E-TABLE of accepted forms]", r6_9, floor=3)
     ctx.run_rule("R6.8", "read_file normalises CRLF through replace_crlf before parsing [E-FLOW]", r6_8, floor=1)
